@@ -24,17 +24,19 @@ theorem gFind_eq (kind : Kind) (h : Nat → Nat) (t : PTable) (k : Nat) :
   · exact gen_set_find h t k
   · exact gen_pool_find h t k
 
-theorem gInsert_eq (kind : Kind) (h : Nat → Nat) (t : PTable) (pos : Nxt) (k v : Nat) (hp : pos ≠ .item (t.allocItem kind).1) :
-    gInsert kind h t pos k v = (t.insert kind h pos k v).map (fun r => (r.1, Nxt.item r.2)) := by
+theorem gInsert_eq (kind : Kind) {h : Nat → Nat} {pt : PTable} {t : Table} (hr : Rel pt t) (hi : t.Inv h) (p k v : Nat) :
+    gInsert kind h pt (nxtAt pt.self t.order p) k v =
+      (pt.insert kind h (nxtAt pt.self t.order p) k v).map (fun r => (r.1, Nxt.item r.2)) := by
   cases kind
-  · exact gen_map_insert h t pos k v hp
-  · exact gen_set_insert h t pos k v hp
-  · exact gen_pool_insert h t pos k v hp
+  · exact gen_map_insert_rel hr hi p k v
+  · exact gen_set_insert_rel hr hi p k v
+  · exact gen_pool_insert_rel hr hi p k v
 
-theorem gRemoveIt_eq (kind : Kind) (h : Nat → Nat) (t : PTable) (item : Nat) (hc : (t.items item).cell ≠ .nextOf item) :
+theorem gRemoveIt_eq (kind : Kind) (h : Nat → Nat) (t : PTable) (item : Nat) (hc : (t.items item).cell ≠ .nextOf item)
+    (hp : (t.items item).prev ≠ some item) :
     gRemoveIt kind h t (.item item) = some (t.removeItem item) := by
   cases kind
-  · exact gen_map_removeIt h t item hc
+  · exact gen_map_removeIt h t item hc hp
   · exact gen_set_removeIt h t item hc
   · exact gen_pool_removeIt h t item hc
 
@@ -71,9 +73,6 @@ theorem gSwap_eq (kind : Kind) (a b : PTable) : gSwap kind a b = some (PTable.sw
   · exact gen_set_swap a b
   · exact gen_pool_swap a b
 
-theorem Rel.begin_nxtAt {pt : PTable} {t : Table} (hr : Rel pt t) : pt.begin = nxtAt pt.self t.order 0 := by
-  rw [hr.begin_eq]; unfold nxtAt; cases t.order <;> rfl
-
 /-- One step of the machine with the translated bodies is the step of the pointer-level model, on every pair of tables
     that represents a model state (as every reachable one does), for every operation, container kind and hash function. -/
 theorem gstep_eq_pstep (kind : Kind) (h : Nat → Nat) (ps : PState) (s : State) (op : Op) (hp : PRel ps s) (hs : SInv h s) :
@@ -83,8 +82,10 @@ theorem gstep_eq_pstep (kind : Kind) (h : Nat → Nat) (ps : PState) (s : State)
   have hav : op.available kind = true := by simpa using hav0
   cases op with
   | append t k v =>
+    obtain ⟨hr, hself⟩ := hp.get t
+    have hi := hs.get t
     simp only [gstep, pstep, hav, Bool.not_true, Bool.false_eq_true, if_false]
-    cases kind <;> simp only [gen_map_append, gen_set_append _ _ k v, gen_pool_append _ _ k v] <;>
+    cases kind <;> simp only [gen_map_append hr hi, gen_set_append _ _ k v, gen_pool_append _ _ k v] <;>
       (cases (ps.get t).insert _ h (.stl (ps.get t).self) k v <;> simp)
   | prepend t k v =>
     obtain ⟨hr, hself⟩ := hp.get t
@@ -93,7 +94,7 @@ theorem gstep_eq_pstep (kind : Kind) (h : Nat → Nat) (ps : PState) (s : State)
       rw [hr.begin_nxtAt]; exact hr.alloc_ne_pos hi kind 0
     simp only [gstep, pstep, hav, Bool.not_true, Bool.false_eq_true, if_false]
     cases kind
-    · simp only [gen_map_prepend _ _ k v (hb _)]
+    · simp only [gen_map_prepend hr hi]
       cases (ps.get t).insert Kind.map h (ps.get t).begin k v <;> simp
     · simp only [gen_set_prepend _ _ k v (hb _)]
       cases (ps.get t).insert Kind.set h (ps.get t).begin k v <;> simp
@@ -104,7 +105,7 @@ theorem gstep_eq_pstep (kind : Kind) (h : Nat → Nat) (ps : PState) (s : State)
     simp only [gstep, pstep, hav, Bool.not_true, Bool.false_eq_true, if_false, hr.order_eq hi]
     by_cases hpos : pos ≤ (s.get t).order.length
     · simp only [hpos, if_true]
-      rw [gInsert_eq kind h _ _ k v (hr.alloc_ne_pos hi kind pos)]
+      rw [gInsert_eq kind hr hi pos k v]
       cases (ps.get t).insert kind h (nxtAt (ps.get t).self (s.get t).order pos) k v with
       | none => simp [insertOut]
       | some r => cases hro : r.1.order <;> simp [insertOut, hro]
@@ -120,7 +121,7 @@ theorem gstep_eq_pstep (kind : Kind) (h : Nat → Nat) (ps : PState) (s : State)
     | none => simp
     | some id =>
       have hm : id ∈ (s.get t).order := List.mem_of_getElem? hg
-      simp only [gRemoveIt_eq kind h _ id (hr.cell_ne_self hi id hm), removeOut]
+      simp only [gRemoveIt_eq kind h _ id (hr.cell_ne_self hi id hm) (hr.prev_ne_self hi id hm), removeOut]
       cases ((ps.get t).removeItem id).1.order <;> simp
   | removeValue t pos =>
     obtain ⟨hr, hself⟩ := hp.get t
@@ -179,7 +180,8 @@ theorem gstep_eq_pstep (kind : Kind) (h : Nat → Nat) (ps : PState) (s : State)
     cases kind <;> simp only [gen_map_back, gen_set_back, gen_pool_back] <;> (cases (ps.get t).endPrev <;> rfl)
   | assign t =>
     simp only [gstep, pstep, hav, Bool.not_true, Bool.false_eq_true, if_false]
-    cases kind <;> simp only [gAssign, gen_map_assign, gen_set_assign]
+    obtain ⟨hr, hself⟩ := hp.get t
+    cases kind <;> simp only [gAssign, gen_map_assign hr (hs.get t), gen_set_assign]
   | appendAll t =>
     simp only [gstep, pstep, hav, Bool.not_true, Bool.false_eq_true, if_false]
     by_cases hk : kind = Kind.set
